@@ -5,6 +5,7 @@ import (
 	"go/token"
 	"reflect"
 	"strings"
+	"sync"
 
 	"github.com/ipfs/go-cid"
 	"github.com/ipld/go-ipld-prime/datamodel"
@@ -393,6 +394,16 @@ func fieldNameFromSchema(name string) string {
 }
 
 var defaultTypeSystem schema.TypeSystem
+
+// defaultTypeSystemMu serialises schema inference: inferred types are looked up in and accumulated
+// into the package-level type system, and bindings may be created from many goroutines.
+var defaultTypeSystemMu sync.Mutex
+
+func inferSchemaSync(typ reflect.Type) schema.Type {
+	defaultTypeSystemMu.Lock()
+	defer defaultTypeSystemMu.Unlock()
+	return inferSchema(typ, 0)
+}
 
 func init() {
 	defaultTypeSystem.Init()
